@@ -72,7 +72,14 @@ func outsideRepos(prefix string) []string {
 	if i := strings.LastIndex(prefix, "/"); i >= 0 {
 		out = append(out, prefix[:i], prefix[:i]+"/zz")
 	}
-	return out
+	// only names that really are outside the prefix (with prefix "a", "a/b" is inside)
+	var outside []string
+	for _, r := range out {
+		if !strings.HasPrefix(r, prefix+"/") {
+			outside = append(outside, r)
+		}
+	}
+	return outside
 }
 
 func newWorld(run *evid.Run, prefix string) *world {
@@ -269,7 +276,7 @@ func main() {
 	methods := []string{"GetBlob", "GetBlobRange", "GetManifest", "GetTag", "ResolveBlob", "ResolveManifest", "ResolveTag", "PushBlob", "PushBlobChunked", "PushBlobChunkedResume", "MountBlob", "PushManifest", "DeleteBlob", "DeleteManifest", "DeleteTag", "Tags", "Referrers", "Upload"}
 
 	// (a) method × name core
-	reps := run.N(2, 20)
+	reps := run.N(6, 30)
 	for rep := 0; rep < reps; rep++ {
 		for pi, prefix := range prefixes {
 			names := append([]string{"a", "a/b", "c", "nonexistent"}, ill...)
@@ -310,7 +317,7 @@ func main() {
 	}
 
 	// (b),(c) histories
-	nh := run.N(300, 5000)
+	nh := run.N(1500, 10000)
 	for h := 0; h < nh; h++ {
 		rng := run.Rand(14, uint64(h))
 		prefix := prefixes[h%len(prefixes)]
